@@ -220,7 +220,7 @@ class Gen:
         avoid = set(avoid)
         while len(out) < n:
             if mode == 'dense':
-                i = r.randrange(0, 3 * n + 8)
+                i = r.randrange(0, 3 * n + 8 + 2 * len(avoid))   # the range grows with the ids in use
             elif mode == 'sparse':
                 i = r.randrange(0, 5000)
             else:
